@@ -359,6 +359,8 @@ def circularArcProperties (fuel : Nat) (a b c : Pos P) : Outcome (Option (ArcPro
     pure none
   else do
     let d := (2 : P) * (a.x * (b - c).y + b.x * (c - a).y + c.x * (a - b).y)
+    -- `if d == 0.0 { return None; }` (repair of F19)
+    if Scalar.eq d (0 : P) then pure none else
     let aSq := a.lengthSquared
     let bSq := b.lengthSquared
     let cSq := c.lengthSquared
